@@ -272,7 +272,7 @@ func (u *upstream) createClient(addr string) (*client, error) {
 	// start client
 	go func() {
 		c.Start()
-		u.removeClient(addr)
+		u.removeExitedClient(addr, c)
 	}()
 	u.addClientLocked(addr, c)
 	return c, nil
@@ -287,6 +287,19 @@ func (u *upstream) addClientLocked(addr string, c *client) {
 func (u *upstream) removeClient(addr string) {
 	u.clientsMu.Lock()
 	defer u.clientsMu.Unlock()
+	u.removeClientLocked(addr)
+}
+
+// removeExitedClient removes c from the table once it has exited, unless a
+// newer client of the same address took its place meanwhile (the exit of a
+// client stopped by a host replacement must not drop its successor, which
+// would keep running without ever being stopped).
+func (u *upstream) removeExitedClient(addr string, c *client) {
+	u.clientsMu.Lock()
+	defer u.clientsMu.Unlock()
+	if u.loadClients()[addr] != c {
+		return
+	}
 	u.removeClientLocked(addr)
 }
 
